@@ -303,6 +303,48 @@ fn builder_build_early_panics<const N: usize>() {
     must_not_reach!("build() returned an array with unwritten elements");
 }
 
+/// Zero-sized element types: "nothing to write" is not "initialised" - the element count is still
+/// part of the contract (a `Drop` ZST would be dropped N times; std's from_fn calls the closure N times).
+fn builder_zst_build_early_panics<const N: usize>() {
+    let mut b = ArrayBuilder::<(), N>::new();
+    let k: usize = kani::any();
+    kani::assume(k < N);
+    let mut i = 0;
+    while i < k {
+        b.push(());
+        i += 1;
+    }
+    assert!(b.len() == k && !b.is_full());
+    let out = b.build();
+    let _ = out;
+    must_not_reach!("build() returned from an under-filled builder of zero-sized elements");
+}
+
+fn builder_zst_push_full_panics<const N: usize>() {
+    let mut b = ArrayBuilder::<(), N>::new();
+    let mut i = 0;
+    while i < N {
+        assert!(!b.is_full());
+        b.push(());
+        i += 1;
+    }
+    assert!(b.is_full() && b.len() == N);
+    b.push(());
+    must_not_reach!("push() on a full builder of zero-sized elements returned");
+}
+
+fn from_fn_val_zst_break_panics<const N: usize>() {
+    let t: usize = kani::any();
+    kani::assume(t < N);
+    let out: [(); N] = array::from_fn_!(|i| {
+        if i == t {
+            break;
+        }
+    });
+    let _ = out;
+    must_not_reach!("from_fn_! returned a zero-sized-element array although the closure broke out of the loop");
+}
+
 fn builder_push_full_panics<const N: usize>() {
     let vals: [u8; N] = kani::any();
     let mut b = ArrayBuilder::<u8, N>::new();
@@ -353,6 +395,12 @@ macro_rules! per_n_panics {
                 calls("konst::array::map!"), bounds("every input with the trigger at any position", "same"), panics_in("closure panic", "map_closure_panics") }
             tiers! { #[kani::should_panic] builder_build_early_panics: unwind(7, 7), builder_build_early_panics::<$n>(), builder_build_early_panics::<$n>(),
                 calls("konst::array::ArrayBuilder::build"), bounds("every under-filled builder", "same"), panics_in("build", "non-fully-initialized") }
+            tiers! { #[kani::should_panic] builder_zst_build_early_panics: unwind(7, 7), builder_zst_build_early_panics::<$n>(), builder_zst_build_early_panics::<$n>(),
+                calls("konst::array::ArrayBuilder::<(), N>::build", "ArrayBuilder::is_full", "ArrayBuilder::len"), bounds("every under-filled builder of zero-sized elements", "same"), panics_in("build", "non-fully-initialized") }
+            tiers! { #[kani::should_panic] builder_zst_push_full_panics: unwind(7, 7), builder_zst_push_full_panics::<$n>(), builder_zst_push_full_panics::<$n>(),
+                calls("konst::array::ArrayBuilder::<(), N>::push", "ArrayBuilder::is_full"), bounds("full builder of zero-sized elements", "same"), panics_in("push", "full array") }
+            tiers! { #[kani::should_panic] from_fn_val_zst_break_panics: unwind(7, 7), from_fn_val_zst_break_panics::<$n>(), from_fn_val_zst_break_panics::<$n>(),
+                calls("konst::array::from_fn_!"), bounds("zero-sized elements, break at any index", "same"), panics_in("ArrayBuilder", "build", "non-fully-initialized") }
             tiers! { #[kani::should_panic] builder_push_full_panics: unwind(7, 7), builder_push_full_panics::<$n>(), builder_push_full_panics::<$n>(),
                 calls("konst::array::ArrayBuilder::push"), bounds("full builder", "same"), panics_in("push", "full array") }
         }
